@@ -878,7 +878,12 @@ func (f *frame) lookupLocal(name string, heap *HeapState) (Val, bool) {
 	if cell != nil {
 		v := f.val(cell)
 		pt := cell.Type().Underlying().(*types.Pointer)
-		return Val{T: f.x.H.Load(heap, f.x.locOf(v, pt.Elem())), Typ: pt.Elem()}, true
+		loc := f.x.locOf(v, pt.Elem())
+		out := Val{T: f.x.H.Load(heap, loc), Typ: pt.Elem()}
+		if isAggregate(pt.Elem()) {
+			out.Loc = loc // `&x` and `x.arr[:]` in specifications
+		}
+		return out, true
 	}
 	// definitions visible at the current block: debug refs and phis named after the variable in
 	// dominating blocks; the one deepest in the dominator tree (latest in its block) is current
